@@ -37,7 +37,7 @@ func Units(n uint64) types.Currency { return types.NewCurrency64(n).Mul64(Unit) 
 
 // Dur is the contract duration (expiration height - price table tip height) every harness
 // contract has when it is used, so that the per-sector append price is a constant.
-const Dur = 256
+const Dur = 164
 
 // DefaultPrices: with Unit = 4096 H the unit prices are
 //
